@@ -5,7 +5,7 @@ open Pushr Codec Pushr.Parse
 
 namespace ParseDrv
 
-def isInstr (tok : String) : Bool := Instr.table.any (·.1 == tok)
+def isInstr (tok : String) : Bool := Instr.isName tok
 
 /-- independent tree builder for balanced token sequences (recursive descent; children in token
 order = top-first order) -/
